@@ -71,3 +71,25 @@ Example C13_ex : exists st tl,
   existsb (fun '(tm, l) => negb (l_val l =? 0) && static_chan M_NOSV Tables_gen.c_nosv_CH_SUBSYSTEM &&
                            (l_type l =? cs_type (spec_of ex_sx (chan_of (s_chans ex_sx) M_NOSV Tables_gen.c_nosv_CH_SUBSYSTEM)))) tl = true.
 Proof. eexists. eexists. split; vm_compute; reflexivity. Qed.
+
+(* ==== prv.c emit from source (unit prv) ==== *)
+(* check_flags of src/emu/pv/prv.c, regenerated on every run into Gen/Prv_gen.v (translate/units/prv.py): it refuses
+   exactly the three exclusive pairs, and every flags word the emulator registers - the flags of all model channels
+   dumped from the source (Gen/Tables_gen.v), of the mark channels and of the six system channels - is below 32 and
+   passes it, so prv_register never fails on its flags and C06_prv_emit_from_source applies to each of them. *)
+From OV Require Emu.PrvPre Emu.ChanPre Gen.Prv_gen Proofs.PrvEmitProofs.
+Theorem C13_prv_flags_from_source :
+  (forall e s n z d,
+     PrvEmitProofs.is_ok (PrvPre.exec (Prv_gen.check_flags (PrvEmitProofs.mkflags e s n z d)) tt
+        {| PrvPre.rflags := 0; PrvPre.lset := 0; PrvPre.lval := ChanPre.vnull; PrvPre.rrow := 0; PrvPre.rtyp := 0;
+           PrvPre.cur := ChanPre.vnull; PrvPre.plines := [] |})
+     = negb (e && d) && negb (e && s) && negb (s && d)) /\
+  forallb (fun f => (0 <=? f) && (f <? 32) &&
+                    PrvEmitProofs.is_ok (PrvPre.exec (Prv_gen.check_flags f) tt
+                       {| PrvPre.rflags := 0; PrvPre.lset := 0; PrvPre.lval := ChanPre.vnull; PrvPre.rrow := 0; PrvPre.rtyp := 0;
+                          PrvPre.cur := ChanPre.vnull; PrvPre.plines := [] |}))
+          PrvEmitProofs.registered_flags = true /\
+  (forall sx s, (forall t k, s <> STr t k) -> (forall c k, s <> SCr c k) -> In (flags_of sx s) PrvEmitProofs.registered_flags).
+Proof. exact (conj PrvEmitProofs.check_flags_iff (conj PrvEmitProofs.registered_flags_pass PrvEmitProofs.system_flags_registered)). Qed.
+Print Assumptions C13_prv_flags_from_source.
+(* ==== end of block (unit prv) ==== *)
